@@ -146,7 +146,7 @@ func (m c20Market) desc() map[string]any {
 	}
 }
 
-func (m c20Market) sdk(admin string) exchange.Market {
+func (m c20Market) sdk(id uint32, grants []exchange.AccessGrant) exchange.Market {
 	rs := func(l []c20Ratio) []exchange.FeeRatio {
 		var out []exchange.FeeRatio
 		for _, r := range l {
@@ -171,7 +171,8 @@ func (m c20Market) sdk(admin string) exchange.Market {
 		ReqAttrCreateCommitment:   m.ReqCom,
 		CommitmentSettlementBips:  uint32(m.Bips),
 		IntermediaryDenom:         m.Interm,
-		AccessGrants:              []exchange.AccessGrant{{Address: admin, Permissions: exchange.AllPermissions()}},
+		AccessGrants:              grants,
+		MarketId:                  id,
 	}
 }
 
@@ -355,6 +356,24 @@ func c20GenMarket(r *rand.Rand, w *CaseWriter) c20Market {
 		}
 	}
 	return m
+}
+
+// c20WordBoundaryPrice picks a price whose product with the ratio's fee amount lies around a
+// machine-word boundary (2^31, 2^32, 2^63, the upper half of 64 bits, 2^64): arithmetic that is
+// right for small and for huge amounts can still be wrong there.
+func c20WordBoundaryPrice(r *rand.Rand, fa *big.Int) *big.Int {
+	if fa == nil || fa.Sign() <= 0 {
+		return nil
+	}
+	targets := []*big.Int{pow2(63), pow2(64), new(big.Int).Mul(pow2(62), c20Big(3)), new(big.Int).Mul(pow2(60), c20Big(13)),
+		pow2(32), pow2(31), new(big.Int).Sub(pow2(64), c20Big(1))}
+	t := new(big.Int).Set(targets[r.Intn(len(targets))])
+	p := new(big.Int).Quo(t, fa)
+	p.Add(p, c20Big(int64(r.Intn(3)-1)))
+	if p.Sign() <= 0 {
+		return nil
+	}
+	return p
 }
 
 func c20Ceil(p, rf, rp *big.Int) *big.Int {
@@ -599,6 +618,37 @@ func TestC20(t *testing.T) {
 	}
 	makerIdx := len(accts)
 	accts = append(accts, c20Acct{addr: maker})
+	// accounts that hold permissions in every market (and every name): one per single permission,
+	// one with all of them, one with all but PERMISSION_SETTLE.  The rule "user fills need
+	// allow_user_settlement" has no exception for them.
+	grants := []exchange.AccessGrant{{Address: maker.String(), Permissions: exchange.AllPermissions()}}
+	type holder struct {
+		idx   int
+		perms string
+	}
+	var holders []holder
+	addHolder := func(n int, perms []exchange.Permission, label string) {
+		a := addrN(n)
+		ensureAccount(app, baseCtx, a)
+		fund(t, app, baseCtx, a, rich)
+		for _, nm := range c20Names {
+			c20SetAttr(t, app, baseCtx, owner, a, nm)
+		}
+		holders = append(holders, holder{len(accts), label})
+		accts = append(accts, c20Acct{addr: a})
+		grants = append(grants, exchange.AccessGrant{Address: a.String(), Permissions: perms})
+	}
+	for i, p := range exchange.AllPermissions() {
+		addHolder(970+i, []exchange.Permission{p}, p.SimpleString())
+	}
+	addHolder(980, exchange.AllPermissions(), "all")
+	var noSettle []exchange.Permission
+	for _, p := range exchange.AllPermissions() {
+		if p != exchange.Permission_settle {
+			noSettle = append(noSettle, p)
+		}
+	}
+	addHolder(981, noSettle, "all but settle")
 	nAcct = len(accts)
 	stranger := addrN(960) // no permission anywhere
 	ensureAccount(app, baseCtx, stranger)
@@ -660,11 +710,51 @@ func TestC20(t *testing.T) {
 			}
 			return false
 		})
-		msg := &exchange.MsgGovCreateMarketRequest{Authority: authority, Market: m.sdk(maker.String())}
+		// one market in three is created with an explicit id for which the authority has sent
+		// configuration messages before (none of those endpoints checks that the market exists)
+		var preOps []c20PreOp
+		var preTerms []string
+		var preDescs []map[string]any
+		explicitID := uint32(0)
+		if mi%3 == 1 {
+			explicitID = uint32(700_000 + mi)
+			preOps = c20GenPreOps(r, m)
+			rawNotAccepting := false
+			for _, po := range preOps {
+				cctx, write := mctx.CacheContext()
+				e := handle(cctx, po.msg(authority, explicitID))
+				if e == nil {
+					write()
+					if po.Kind == "close" {
+						rawNotAccepting = true
+					} else if po.Kind == "orders" {
+						rawNotAccepting = !po.V
+					}
+				}
+				preTerms = append(preTerms, "("+po.coq()+", "+coqBool(e == nil)+")")
+				d := po.desc()
+				d["ok"] = e == nil
+				preDescs = append(preDescs, d)
+				w.Count("operations_before_creation")
+				w.Count("operations_before_creation_" + po.Kind)
+				if e == nil {
+					w.Count("operations_before_creation_accepted")
+				}
+			}
+			w.Count("markets_created_over_earlier_entries")
+			if !k.IsMarketKnown(mctx, explicitID) && (rawNotAccepting && m.AccOrders ||
+				k.IsUserSettlementAllowed(mctx, explicitID) && !m.UserSettle || k.IsMarketAcceptingCommitments(mctx, explicitID) && !m.AccCommit) {
+				w.Count("markets_created_over_an_opposite_flag_entry")
+			}
+		}
+		msg := &exchange.MsgGovCreateMarketRequest{Authority: authority, Market: m.sdk(explicitID, grants)}
 		err := handle(mctx, msg)
 		created := err == nil
 		marketID := uint32(4_000_000) // unknown id when the market was not created
-		if created {
+		if created && explicitID != 0 {
+			marketID = explicitID
+			w.Count("markets_created")
+		} else if created {
 			k.IterateKnownMarketIDs(mctx, func(id uint32) bool {
 				if id > lastBefore {
 					marketID = id
@@ -750,6 +840,20 @@ func TestC20(t *testing.T) {
 				price := c20Coin{pd, c20Amount(r)}
 				if r.Intn(12) == 0 {
 					price.A = c20Big(0)
+				}
+				if r.Intn(5) == 0 {
+					var forPD []c20Ratio
+					for _, rt := range m.BuyerRatios {
+						if rt.PD == pd {
+							forPD = append(forPD, rt)
+						}
+					}
+					if len(forPD) > 0 {
+						if bp := c20WordBoundaryPrice(r, forPD[r.Intn(len(forPD))].FA); bp != nil {
+							price.A = bp
+							w.Count("buyer_fee_probes_price_times_fee_at_word_boundary")
+						}
+					}
 				}
 				// candidate denoms: those with a flat option or a ratio for pd first
 				var cands []string
@@ -1151,6 +1255,64 @@ func TestC20(t *testing.T) {
 			}
 		}
 
+		// ---- fills by accounts that hold market permissions (each single one, all, all but settle):
+		// they are users like any other - no flag is waived for them ----
+		probeHolderFills := func(n int) {
+			if !created || (makerBid == 0 && makerAsk == 0) {
+				return
+			}
+			perm := r.Perm(len(holders))
+			for i := 0; i < n && i < len(perm); i++ {
+				h := holders[perm[i]]
+				a := accts[h.idx]
+				d := desc{"probe": "handler", "account_attrs": a.attrs, "filler_permissions": h.perms}
+				var msg sdk.Msg
+				var term, kind string
+				if makerBid != 0 && (makerAsk == 0 || r.Intn(2) == 0) {
+					kind = "fillbids"
+					var sflat *c20Coin
+					if len(m.SellerFlat) > 0 {
+						sflat = c20FlatChoice(r, m.SellerFlat, true)
+					}
+					cfee := c20FlatChoice(r, m.CreateAsk, true)
+					if len(m.CreateAsk) == 0 {
+						cfee = nil
+					}
+					msg = &exchange.MsgFillBidsRequest{Seller: a.addr.String(), MarketId: marketID, TotalAssets: sdk.NewCoins(assets),
+						BidOrderIds: []uint64{makerBid}, SellerSettlementFlatFee: toPtr(sflat), AskOrderCreationFee: toPtr(cfee)}
+					term = "AFillBids true " + c20CoqCoins([]c20Coin{makerBidPrice}) + " " + c20CoqOptCoin(sflat) + " " + c20CoqOptCoin(cfee)
+					d["msg"], d["bid_prices"], d["seller_settlement_flat_fee"], d["creation_fee"] = "MsgFillBids", makerBidPrice.String(), c20OptStr(sflat), c20OptStr(cfee)
+				} else {
+					kind = "fillasks"
+					fees := c20BuyerFees(r, m, makerAskPrice, true)
+					cfee := c20FlatChoice(r, m.CreateBid, true)
+					if len(m.CreateBid) == 0 {
+						cfee = nil
+					}
+					msg = &exchange.MsgFillAsksRequest{Buyer: a.addr.String(), MarketId: marketID, TotalPrice: makerAskPrice.sdk(),
+						AskOrderIds: []uint64{makerAsk}, BuyerSettlementFees: sdk.NewCoins(c20Coins(fees)...), BidOrderCreationFee: toPtr(cfee)}
+					term = "AFillAsks true " + makerAskPrice.coq() + " " + c20CoqCoins(fees) + " " + c20CoqOptCoin(cfee)
+					d["msg"], d["total_price"], d["buyer_settlement_fees"], d["creation_fee"] = "MsgFillAsks", makerAskPrice.String(), c20StrCoins(fees), c20OptStr(cfee)
+				}
+				cctx, _ := mctx.CacheContext()
+				e := handle(cctx, msg)
+				d["ok"] = e == nil
+				addProbe("PAct "+c20CoqStrs(a.attrs)+" ("+term+") "+coqBool(e == nil), d)
+				w.Count("holder_fills")
+				w.Count("holder_fills_" + kind)
+				if e == nil {
+					w.Count("holder_fills_accepted")
+				}
+				if !m.UserSettle && m.AccOrders {
+					w.Count("holder_fills_in_market_without_user_settlement")
+					if h.perms == "settle" || h.perms == "all" {
+						w.Count("holder_fills_by_settle_permission_in_market_without_user_settlement")
+					}
+				}
+				probeKey(fmt.Sprintf("holderfill/%d/%d", mi, len(probes)))
+			}
+		}
+
 		// ---- requests that ValidateBasic must refuse although the fees would be enough: the same
 		// denom twice, a zero coin, coins out of order, a zero / negative single fee, a zero price ----
 		probeMalformed := func(n int) {
@@ -1288,6 +1450,17 @@ func TestC20(t *testing.T) {
 					pd = c20PriceDenoms[r.Intn(len(c20PriceDenoms))]
 				}
 				price := c20Coin{pd, c20Amount(r)}
+				if r.Intn(4) == 0 {
+					for _, rt := range m.BuyerRatios {
+						if rt.PD == pd {
+							if bp := c20WordBoundaryPrice(r, rt.FA); bp != nil {
+								price.A = bp
+								w.Count("quotes_bid_price_times_fee_at_word_boundary")
+							}
+							break
+						}
+					}
+				}
 				fill := makerAsk != 0 && qi == 0 && r.Intn(2) == 0
 				if fill {
 					price = makerAskPrice
@@ -1470,6 +1643,9 @@ func TestC20(t *testing.T) {
 			addProbe("PRatios true "+c20CoqRatios(sr), desc{"probe": "GetSellerSettlementRatios", "ratios": c20StrRatios(sr)})
 			addProbe("PRatios false "+c20CoqRatios(br), desc{"probe": "GetBuyerSettlementRatios", "ratios": c20StrRatios(br)})
 			addProbe("PBips "+zI64(int64(k.GetCommitmentSettlementBips(mctx, marketID))), desc{"probe": "GetCommitmentSettlementBips"})
+			fao, fus, fac := k.IsMarketAcceptingOrders(mctx, marketID), k.IsUserSettlementAllowed(mctx, marketID), k.IsMarketAcceptingCommitments(mctx, marketID)
+			addProbe("PFlagState "+coqBool(fao)+" "+coqBool(fus)+" "+coqBool(fac),
+				desc{"probe": "flag entries", "accepting_orders": fao, "allow_user_settlement": fus, "accepting_commitments": fac})
 			for _, rk := range []struct {
 				name string
 				l    []string
@@ -1555,12 +1731,14 @@ func TestC20(t *testing.T) {
 		}
 
 		// =========================== round 0: the market as created ===========================
+		probeTables()
 		probeFlats(false)
 		probeBuyer(14)
 		probeAskPrice(8)
 		probeCan(true)
 		makeOrders()
 		probeHandlers(24, "created")
+		probeHolderFills(4)
 		probeMalformed(4)
 		probeQuotes(1, 2)
 
@@ -1593,6 +1771,7 @@ func TestC20(t *testing.T) {
 		if created && flipFlags() {
 			makeOrders()
 			probeHandlers(12, "flags")
+			probeHolderFills(4)
 		}
 
 		// =========================== configuration changes ===========================
@@ -1645,6 +1824,7 @@ func TestC20(t *testing.T) {
 				probeCan(false)
 				makeOrders()
 				probeHandlers(8, fmt.Sprintf("round%d", rd))
+				probeHolderFills(3)
 				probeMalformed(1)
 				probeQuotes(1, 1)
 			}
@@ -1782,8 +1962,14 @@ func TestC20(t *testing.T) {
 			len(m0.ReqAsk)+len(m0.ReqBid)+len(m0.ReqCom) > 0 {
 			w.Nontrivial(m0.coq())
 		}
-		w.Add("CMarket "+m0.coq()+" "+coqBool(created)+" "+coqList(probes),
-			desc{"market": m0.desc(), "created": created, "attribute_phase": phaseNames[ph], "probes": pdescs})
+		if explicitID != 0 {
+			w.Add("CMarketPre "+coqList(preTerms)+" "+m0.coq()+" "+coqBool(created)+" "+coqList(probes),
+				desc{"market": m0.desc(), "created": created, "attribute_phase": phaseNames[ph], "probes": pdescs,
+					"explicit_market_id": explicitID, "sent_by_the_authority_before_the_market_existed": preDescs})
+		} else {
+			w.Add("CMarket "+m0.coq()+" "+coqBool(created)+" "+coqList(probes),
+				desc{"market": m0.desc(), "created": created, "attribute_phase": phaseNames[ph], "probes": pdescs})
+		}
 		if mi%(nMarkets/4+1) == 0 { // evidence samples: the market and a few of its probes
 			var few []desc
 			for i := 0; i < len(pdescs); i += len(pdescs)/5 + 1 {
